@@ -75,8 +75,10 @@ def check_encoders(chk):
                 'jsonParse must hand the validated string itself to json.loads (any textual pre-processing also rewrites string contents)', node=lf.func)
     lf = libfuncs['jsonStringify']
     calls = [n for n in ast.walk(lf.func) if isinstance(n, ast.Call) and call_name(n) == 'value_json']
-    if len(calls) == 1 and lf.targets and norm(calls[0].args[0]) == lf.targets[0] and len(calls[0].args) == 2 and 'int(' in norm(calls[0].args[1]):
-        chk.ok('C14.E', f'jsonStringify = value_json(value, {norm(calls[0].args[1])[:50]})')
+    if len(calls) == 1 and lf.targets and norm(calls[0].args[0]) == lf.targets[0] and len(calls[0].args) == 2:
+        chk.ok('C14.E', f'jsonStringify = value_json(value, {norm(calls[0].args[1])[:50]}) (that the indent is an int is C12.sink)')
+    elif calls:
+        chk.unrec('C14.E', f'jsonStringify: {"; ".join(norm(c)[:60] for c in calls)} not recognised', lf.mod.rel)
     else:
         chk.bad('C14.E', lf.mod, lf.pyname, '; '.join(norm(c)[:80] for c in calls), 'jsonStringify must serialise the value itself with value_json and an int() indent', node=lf.func)
 
@@ -93,6 +95,33 @@ def subs_on_encoder_output(vmod):
         if isinstance(n, ast.Call) and isinstance(n.func, ast.Attribute) and n.func.attr in ('replace', 'strip', 'rstrip', 'translate'):
             out.append(n)
     return func, out
+
+
+def _callable_keeps_group(vmod, repl, gid, gname, rname):
+    """a replacement callable (lambda or module function) evaluated abstractly: returns the string-token group when it participates, '' otherwise"""
+    from ..absint import Interp, AMatch, ALine, Sym, RaiseSig, ModuleFunc
+    it = Interp(vmod, 'C14.S')
+    if isinstance(repl, ast.Lambda):
+        fn = ('closure', repl, {})
+    elif isinstance(repl, ast.Name) and repl.id in vmod.funcs:
+        fn = ModuleFunc(vmod.funcs[repl.id])
+    else:
+        return False
+    for present in (True, False):
+        groups = {gid: 'sym' if present else None}
+        if gname:
+            groups[gname] = 'sym' if present else None
+        m = AMatch(rname, ALine(0, rname, groups))
+        try:
+            r = it.apply(fn, [m], repl)
+        except (RaiseSig, Unrecognised):
+            return False
+        if present:
+            if not (isinstance(r, Sym) and r.kind == 'group' and r.args[1] in (gid, gname)):
+                return False
+        elif r != '':
+            return False
+    return True
 
 
 def check_substitutions(chk):
@@ -126,7 +155,7 @@ def check_substitutions(chk):
                 a, c1 = included(cand, ref)
                 b, c2 = included(ref, cand)
                 gid = fk[0].a
-                repl_ok = const_str(repl) == f'\\{gid}' or (isinstance(repl, ast.Lambda) and norm(repl.body) in (f"{repl.args.args[0].arg}.group({gid}) or ''",))
+                repl_ok = const_str(repl) == f'\\{gid}' or const_str(repl) == f'\\g<{fk[0].b}>' or _callable_keeps_group(vmod, repl, gid, fk[0].b, rname)
                 if a and b and repl_ok:
                     chk.ok('C14.S', f'{rname}: token-aware - alternative 1 is exactly the JSON string-token language (automata equivalence) and the replacement returns it unchanged')
                     aware.append((rname, rx, items[0].kids[1:]))
